@@ -1,4 +1,5 @@
 import Walrus.Proofs.Traverse
+import Walrus.Proofs.Steps
 import Walrus.Visit
 
 /-!
@@ -27,6 +28,19 @@ theorem in_order_is_program_order (logsHook : Bool) (ar : IRArena) (entry : Nat)
       visitInOrder logsHook ar fuel entry =
         ([], walkSeq seqStart (instrEvents instrSpec logsHook (defaultVisits hookDefaultVisitsOperands)) seqEnd entry ty t) :=
   dfsInOrder_eq_walk _ _ _ ar entry ty t he hv
+
+/-- **the in-order traversal is a loop of exactly `costL t + 1` iterations** — one per instruction
+    and one per sequence of the tree, whatever its depth: after that many iterations of
+    `dfs_in_order`'s work-stack loop the stack is empty and the log is the program-order walk.
+    (The model's stack holds one entry per *open* sequence; the Rust call stack does not grow with
+    nesting because the loop is a loop — the harness confirms that at depth 10^5 on a 256 KiB
+    stack.) -/
+theorem in_order_takes_one_iteration_per_instruction_and_sequence (logsHook : Bool) (ar : IRArena) (entry : Nat)
+    (ty : Option Nat) (t : TL (Option Nat) IRInstr) (he : ar.get? entry = some (ty, t.toList)) (hv : ViewL ar t)
+    (fuel : Nat) (hf : costL t + 1 ≤ fuel) :
+    visitInOrder logsHook ar fuel entry =
+      ([], walkSeq seqStart (instrEvents instrSpec logsHook (defaultVisits hookDefaultVisitsOperands)) seqEnd entry ty t) :=
+  dfsInOrder_eq_walk_steps _ _ _ ar entry ty t he hv fuel hf
 
 /-- **Mutable traversal**: own instructions of a sequence first, then every nested sequence, each
     exactly once. -/
